@@ -20,7 +20,7 @@ pub fn b2(data: &[u8]) -> Vec<u8> {
 pub fn suite_protoenc(dir: &str, seed: u64, thorough: bool, st: &mut Stats) {
     let mut rng = Rng::new(seed ^ 0x71);
     let mut out = SuiteOut::new(dir, "protoenc");
-    let n = if thorough { 6000 } else { 600 };
+    let n = if thorough { 30000 } else { 600 };
     for _ in 0..n {
         let d = gen_dict(&mut rng);
         let p = match d.to_prost() { Some(p) => p, None => continue };
@@ -67,7 +67,7 @@ pub fn decode_line(bytes: &[u8]) -> String {
 pub fn suite_protodec(dir: &str, seed: u64, thorough: bool, st: &mut Stats) {
     let mut rng = Rng::new(seed ^ 0x72);
     let mut out = SuiteOut::new(dir, "protodec");
-    let n = if thorough { 12000 } else { 1500 };
+    let n = if thorough { 50000 } else { 1500 };
     for i in 0..n {
         let d = gen_dict(&mut rng);
         let (bytes, kind) = match i % 6 {
@@ -215,7 +215,7 @@ fn plausible_dict(rng: &mut Rng) -> Dict {
 pub fn suite_tryinit(dir: &str, seed: u64, thorough: bool, st: &mut Stats) {
     let mut rng = Rng::new(seed ^ 0x73);
     let mut out = SuiteOut::new(dir, "tryinit");
-    let n = if thorough { 10000 } else { 1200 };
+    let n = if thorough { 40000 } else { 1200 };
     for i in 0..n {
         let mut d = plausible_dict(&mut rng);
         let mut kind = "conforming";
